@@ -7,6 +7,11 @@ import Driver.Ops.Fixer
 import Driver.Ops.CRange
 import Driver.Ops.Unber
 import Driver.Ops.StackGuard
+import Driver.Ops.Native
+import Driver.Ops.C10
+import Driver.Ops.C12
+import Driver.Ops.Lifecycle
+import Driver.Ops.ConstraintCheck
 open Driver
 
 def handlers : List Handler := [
@@ -16,7 +21,12 @@ def handlers : List Handler := [
   Driver.Ops.Fixer.run,
   Driver.Ops.CRange.run,
   Driver.Ops.Unber.run,
-  Driver.Ops.StackGuard.run
+  Driver.Ops.StackGuard.run,
+  Driver.Ops.Native.run,
+  Driver.Ops.C10.run,
+  Driver.Ops.C12.run,
+  Driver.Ops.Lifecycle.run,
+  Driver.Ops.ConstraintCheck.run
 ]
 
 def step (line : String) : String :=
